@@ -27,11 +27,17 @@ def run(ctx):
                 "for the matrices; directivity and attenuation switched on/off (beamspread and transmission/reflection on); distinct = distinct (set-up, view, scatterer); non-trivial = view with mode conversion or reflection")
     lines, meta = [], []
     nsetups = 3 * ctx.scale
+    prev, prev_freq = None, None
     for rep in range(nsetups):
         nrefl = [0, 1, 2][rep % 3]
-        s = fixtures.immersion_exact(rng, max_reflections=nrefl)
+        # every other set-up re-uses the Material objects of the previous one with new velocities and densities assigned in place
+        # (a velocity sweep on one examination object), at the same frequency: nothing of the previous evaluation may survive
+        reuse = rep % 2 == 1
+        s = fixtures.immersion_exact(rng, max_reflections=nrefl, reuse_materials=(prev["couplant"], prev["block"]) if reuse else None)
+        ctx.count(f"materials:{'reassigned_in_place' if reuse else 'fresh'}")
         views, numel, block = s["views"], s["numel"], s["block"]
-        freq = float(rng.uniform(2e6, 8e6))
+        freq = prev_freq if reuse else float(rng.uniform(2e6, 8e6))
+        prev, prev_freq = s, freq
         width = float(rng.uniform(0.2e-3, 1e-3))
         use_dir, use_att = (True, True) if rep % 2 == 0 else (bool(rng.integers(0, 2)), bool(rng.integers(0, 2)))
         rw = bim.ray_weights_for_views(views, freq, probe_element_width=width, use_directivity=use_dir, use_attenuation=use_att, save_debug=True)
@@ -46,7 +52,8 @@ def run(ctx):
         pick = names if (ctx.tier == "thorough" or len(names) <= 36) else [names[i] for i in rng.permutation(len(names))[:40]]
         cjb = {"op": "reciprocity", "reflections": nrefl, "numel": numel, "frequency": freq, "width": width, "use_directivity": use_dir, "use_attenuation": use_att,
                "probe": s["probe"].locations.coords.tolist(), "scatterers": s["scat_pts"].tolist(), "H": s["H"],
-               "couplant": [s["couplant"].longitudinal_vel, s["couplant"].density], "block": [block.longitudinal_vel, block.transverse_vel, block.density]}
+               "couplant": [s["couplant"].longitudinal_vel, s["couplant"].density], "block": [block.longitudinal_vel, block.transverse_vel, block.density],
+               "materials": "the Material objects of the previous set-up with these values assigned in place, same frequency" if reuse else "fresh"}
         ctx.count(f"ingredients:dir={int(use_dir)},att={int(use_att)}")
         # a rotated reciprocal scatterer S'(t1, t2) = S(t1 - a, t2 - a) is reciprocal: every scatterer is also run with a
         # random rotation (functions and precomputed matrices take different code paths for the rotation)
